@@ -31,22 +31,24 @@ type Node struct {
 	Text    string // number text, or decoded string value
 	Sub     bool   // with Wild: the string must contain Text
 	Wild    bool   // expected side only: any string matches (used where the wording of an error text is not pinned)
+	AnyV    bool   // expected side only: any well-formed value matches (used where the statement leaves a value open)
 	Elems   []*Node
 	Members []Member
 }
 
-func S(s string) *Node   { return &Node{Kind: Str, Text: s} }
-func AnyS() *Node        { return &Node{Kind: Str, Text: "<any string>", Wild: true} }
+func S(s string) *Node { return &Node{Kind: Str, Text: s} }
+func AnyValue() *Node  { return &Node{Kind: Null, AnyV: true} }
+func AnyS() *Node      { return &Node{Kind: Str, Text: "<any string>", Wild: true} }
 
 // Containing matches (on the expected side) any string that contains sub: used
 // for error texts whose wording is zap's choice but which must describe the
 // failure.
 func Containing(sub string) *Node { return &Node{Kind: Str, Text: sub, Wild: true, Sub: true} }
-func N(t string) *Node   { return &Node{Kind: Num, Text: t} }
-func B(b bool) *Node     { return &Node{Kind: Bool, B: b} }
-func NullNode() *Node    { return &Node{Kind: Null} }
-func O() *Node           { return &Node{Kind: Obj} }
-func A(e ...*Node) *Node { return &Node{Kind: Arr, Elems: e} }
+func N(t string) *Node            { return &Node{Kind: Num, Text: t} }
+func B(b bool) *Node              { return &Node{Kind: Bool, B: b} }
+func NullNode() *Node             { return &Node{Kind: Null} }
+func O() *Node                    { return &Node{Kind: Obj} }
+func A(e ...*Node) *Node          { return &Node{Kind: Arr, Elems: e} }
 
 func (n *Node) Add(k string, v *Node) *Node {
 	n.Members = append(n.Members, Member{k, v})
@@ -443,6 +445,9 @@ func diff(path string, a, b *Node, cmpNum func(x, y string) bool) string {
 			return ""
 		}
 		return path + ": one side missing"
+	}
+	if b.AnyV {
+		return ""
 	}
 	if a.Kind != b.Kind {
 		return fmt.Sprintf("%s: kind differs: got %s want %s", path, a, b)
